@@ -228,7 +228,9 @@ def main():
             xv, _, _ = models.int_of_cells(e, cells[1:33])
             yv, _, _ = models.int_of_cells(e, cells[33:65])
             v = e.prove_i(z3.And(c[2] % P != 0, xv >= 0, xv < P, yv >= 0, yv < P, (xv * c[2] - c[0]) % P == 0, (yv * c[2] - c[1]) % P == 0))
-            if v[0] == 'cex':
+            if v[0] == 'cex' and getattr(v[1], 'approx', False):
+                unknown.append(fn)
+            elif v[0] == 'cex':
                 add(fn + '.value', '%s: encoded coordinates are not X/Z, Y/Z mod p (canonical)' % fn)
             elif v[0] != 'proved':
                 unknown.append(fn)
@@ -244,7 +246,9 @@ def main():
                 continue
             xv = models.bigval(e, out.values).v
             v = e.prove_i(z3.Or(z3.And(c[2] % P == 0, xv == 0), z3.And(c[2] % P != 0, xv >= 0, xv < P, (xv * c[2] - c[0]) % P == 0)))
-            if v[0] == 'cex':
+            if v[0] == 'cex' and getattr(v[1], 'approx', False):
+                unknown.append(fn)
+            elif v[0] == 'cex':
                 add(fn + '.value', '%s is not X/Z mod p (0 at infinity)' % fn)
             elif v[0] != 'proved':
                 unknown.append(fn)
@@ -290,8 +294,7 @@ func TestVerifReplay(t *testing.T) {
 	if _, err := NewSM2Point().SetBytes(bad); err == nil { t.Fatalf("(0,0) accepted") }
 	comp := append([]byte{2}, cases[0].p[1:33]...)
 	if _, err := NewSM2Point().SetBytes(comp); err == nil { t.Fatalf("compressed encoding accepted") }
-}''' % '\\n'.join(rows)
-    src = src.replace('\\\\n', '\\n')
+}''' % '\n'.join(rows)
     okr, outr, pathr = ck.go_test('sm2/internal', src, name='points')
     if okr is True:
         ck.validated += len(pairs)
